@@ -24,7 +24,7 @@ RULE = ("stream A (renderings): random logical configurations — 0-4 appenders 
         "YAML (block+flow), JSON and TOML (tables / inline tables / arrays of tables) by this module. "
         "stream B (mutants): one edit of such a tree — unknown key at each of the 8 section kinds (+ filter), "
         "wrong-typed scalar or section, unknown kind, deleted key, dangling appender reference, malformed logger "
-        "name, unopenable path, roller pattern without {} / with .zst, degenerate numbers. "
+        "name, unopenable path, roller pattern without {} (a .zst / .gz one is fine: both features are on), degenerate numbers. "
         "non-trivial = a mutant, or a rendering with >= 2 appenders and >= 1 logger; distinct = distinct tree")
 ASSUMPTIONS = [
     "text -> tree (serde_yaml, serde_json, toml, serde derive, serde-value) is trusted and exercised, not modelled",
@@ -929,3 +929,12 @@ def compare(c, impl, model):
 
 def known_finding(c, impl, model):
     return KNOWN if degenerate(dec_tree(c[0])) else None
+
+
+def extra_checks(ctx, cases_, impl_lines, model_lines_):
+    """the document's refresh rate is the interval the REAL refresh thread (started by the REAL init_file) asks to
+    sleep, from its first poll on and after every kind of edit (C15's lock-step histories, kind 6): `refresh_rate`
+    is one of the things C14 says a document means"""
+    from gen import xcheck
+    return xcheck.borrow(ctx, "C15", "the refresh_rate of the document is the rate init_file's refresh thread runs at",
+                         lambda c: c[0] == 6, n=90)
